@@ -39,6 +39,7 @@ def shards(tier, seed):
     parts = 6 if tier == 'quick' else 48
     out += [dict(kind='d2', part=i, parts=parts, L=L) for i in range(parts)]
     out.append(dict(kind='symbols'))
+    out += [dict(kind='curated', part=i) for i in range(2)]
     out += [dict(kind='d3', shard=i, n=300 if tier == 'quick' else 4000) for i in range(2)]
     if tier == 'thorough':
         out += [dict(kind='fuzz', shard=i) for i in range(4)]
@@ -51,6 +52,12 @@ def run_shard(shard, tier, seed):
         strat = st.fixed_dictionaries({'d1': molgen.mol_specs(max_atoms=14), 'seed': st.integers(0, 2 ** 31),
                                        'raw': st.booleans()})
         return hyp_run(ID, strat, check_case, max_examples=shard['n'], seed=seed * 1000 + shard['shard'])
+    if k == 'curated':
+        # the curated witnesses are swept completely on every run (drawn cases meet a given witness only now and then): each with
+        # six spellings, among them one that starts at a labelled centre and one that starts a later component there
+        starts = [None, 'centres', 'centres-late', None, 'centres', 'centres-late']
+        return direct_run(ID, [{'d1': {'k': 'smi', 's': s}, 'seed': seed * 7919 + i * 6 + j, 'raw': bool(j == 3), 'start': starts[j]}
+                               for i, s in enumerate(molgen.curated()) if i % 2 == shard['part'] for j in range(6)], check_case)
     if k == 'rxn':
         role = st.lists(molgen.mol_specs(max_atoms=8, corpus_w=3, curated_w=3, graph_w=4, sym_w=0), max_size=3)
         strat = st.fixed_dictionaries({'rxn': st.tuples(role, role, role), 'seed': st.integers(0, 2 ** 31)})
@@ -282,6 +289,89 @@ def rdkit_same(text_a, text_b):
     return a.HasSubstructMatch(b, useChirality=True) and b.HasSubstructMatch(a, useChirality=True)
 
 
+def source_text_clause(src, rec):
+    """a molecule given as text (corpus / curated list) is also read by RDKit and converted by the bridge (C20's subject, other code
+    than the SMILES reader): the configuration the library reads from the text must be, atom by atom (text order on both sides), the
+    one RDKit reads.  This is the only denotation of a source text that does not pass through the reader under test."""
+    from chython import smiles
+    from ..oracles import wl
+    if not src or '|' in src or '>' in src:
+        return True
+    try:
+        from rdkit import Chem, RDLogger
+        from chython.utils.rdkit import from_rdkit_molecule
+        RDLogger.DisableLog('rdApp.*')
+        ps = Chem.SmilesParserParams()
+        ps.removeHs = False
+        rd = Chem.MolFromSmiles(src, ps)
+        if rd is None:
+            rec.count('source-text:rdkit-rejects')
+            return True
+        Chem.Kekulize(rd, clearAromaticFlags=True)
+    except Exception:
+        rec.count('source-text:rdkit-not-comparable')
+        return True
+    ok, x0 = rec.guard('d1-read', smiles, src)
+    if not ok:
+        return False
+    if rd.GetNumAtoms() != len(x0) or any(b.order == 8 for *_, b in x0.bonds()):
+        rec.count('source-text:not-comparable (atom count / coordinate bonds)')
+        return True
+    if any(at.GetChiralTag() != Chem.ChiralType.CHI_UNSPECIFIED and at.GetAtomicNum() != 6 for at in rd.GetAtoms()):
+        rec.count('source-text:not-comparable (RDKit centre on a hetero atom)')
+        return True
+    try:
+        x0 = x0.copy()
+        x0.kekule()
+        fr = from_rdkit_molecule(rd)
+    except Exception as e:
+        rec.count(f'source-text:not-comparable ({type(e).__name__})')
+        return True
+    if len(fr) != len(x0) or [a.atomic_number for _, a in fr.atoms()] != [a.atomic_number for _, a in x0.atoms()]:
+        rec.count('source-text:not-comparable (bridge renumbers)')
+        return True
+    if any(x0.atom(n).stereo is not None for n in x0.stereogenic_allenes) or \
+            any(len(pth) > 2 and len(pth) % 2 == 0 and x0.bond(pth[len(pth) // 2 - 1], pth[len(pth) // 2]).stereo is not None
+                for pth in x0.stereogenic_cumulenes):
+        rec.count('source-text:not-comparable (allene / cumulene stereo is unknown to RDKit)')
+        return True
+    # only the labels RDKit reads are compared: axial chirality of alkylidene rings, spiro centres and other elements RDKit does not
+    # perceive are the library's own business here (counted); a label RDKit reads must be read by the library with the same sense
+    inv = dict(zip(fr, x0))
+    th, ct, al = molgen.stereo_labels(fr)
+    th0, ct0, al0 = molgen.stereo_labels(x0)
+    dd = []
+    for n, (env, s) in th.items():
+        if inv[n] not in th0:
+            dd.append(('tetrahedral-lost', inv[n]))
+        elif x0._translate_tetrahedron_sign(inv[n], tuple(inv[k] for k in env)) != s:
+            dd.append(('tetrahedral-sign', inv[n]))
+    c0 = {frozenset(k) for k in ct0}
+    for (n, k), (env, s) in ct.items():
+        if frozenset((inv[n], inv[k])) not in c0:
+            dd.append(('cis-trans-lost', (inv[n], inv[k])))
+        elif x0._translate_cis_trans_sign(inv[n], inv[k], inv[env[0]], inv[env[1]]) != s:
+            dd.append(('cis-trans-sign', (inv[n], inv[k])))
+    extra = len(th0) - sum(1 for n in th if inv[n] in th0) + len(c0) - sum(1 for (n, k) in ct if frozenset((inv[n], inv[k])) in c0)
+    if extra:
+        rec.count('source-text:labels RDKit does not perceive (not compared)', extra)
+    rec.count('source-text:compared')
+    if dd:
+        sig = dd[0][0]
+        for w in (x0, fr):
+            try:
+                col, adj = wl.constitution(w)
+                if wl.annulene_stereo(w):
+                    sig = 'annulene-stereo'
+                elif wl.gap_a_ring(w, wl.orbits(col, adj)):
+                    sig = 'pseudo-asymmetric-ring'
+            except TimeoutError:
+                sig = 'pseudo-asymmetric-ring'
+        rec.fail('d1-stereo', f'source text {src!r}: read as {str(x0)!r}, RDKit reading through the bridge {str(fr)!r}: {dd[:3]}', sig=sig)
+        return False
+    return True
+
+
 def check_d1(case, rec):
     from chython import smiles
     from ..oracles import wl
@@ -297,6 +387,8 @@ def check_d1(case, rec):
         except molgen.Reject as e:
             rec.count(f'generator-reject:{e}')
             return
+    if case['d1']['k'] in ('smi', 'corpus') and not source_text_clause(molgen.spec_smiles(case['d1']), rec):
+        return
     # atom maps: none / every atom (its own number) / a drawn subset with drawn unique numbers
     mrnd = _random.Random(case['seed'] ^ 0x5bd1e995)
     mode = mrnd.choice(['none', 'none', 'none', 'all', 'partial'])
@@ -306,12 +398,18 @@ def check_d1(case, rec):
     elif mode == 'partial':
         nums = mrnd.sample(range(1, len(m) + 8), len(m))
         maps = {n: k for n, k in zip(m, nums) if mrnd.random() < .5} or None
-    r = smiles_ref.write_random(m, case['seed'], style=dict(mapping=maps) if maps else None)
+    style = dict(mapping=maps) if maps else {}
+    start = case.get('start') or mrnd.choice([None, None, None, 'centres', 'centres-late'])
+    if start:
+        style['start'] = start  # labelled centres as first atom of the string / of a later dot-separated component
+    r = smiles_ref.write_random(m, case['seed'], style=style or None)
     if r is None:
         rec.count('writer-not-applicable')
         return
     text, order = r
     rec.count(f'd1:maps-{mode}')
+    if start:
+        rec.count(f'd1:start-{start}')
     rec.count('d1:strings')
     if nontrivial_text(text):
         rec.nt(text)
